@@ -7,6 +7,7 @@
 package main
 
 import (
+	"runtime/pprof"
 	"context"
 	"encoding/json"
 	"flag"
@@ -664,6 +665,7 @@ func (w *world) exec(o *op) string {
 					mode = kvx15.Pass
 				}
 				before = func() {
+					w.hold.FailTxn("", 0)
 					rest(dels)()
 					if m == 1 {
 						w.hold.FailTxn("/"+key, 5)
@@ -928,6 +930,77 @@ func (w *world) svcRace() {
 	}
 	w.R.Violate("C15:service-update-not-serialised", desc,
 		[]string{"svc gc_worker inf 40", "begin svc a1 1000 45 (parked at save)", "svc gc_worker inf 60", "release a1"})
+}
+
+// svcAbandon: the caller of UpdateServiceGCSafePoint goes away (its context is cancelled - a client time-out or a dropped
+// connection) while the request's own write is on its way to etcd (held in the etcd client, so it does not matter which
+// goroutine issues it). A request that has issued a write must not return - and give up serviceSafePointLock - before that
+// write has been decided: otherwise the next request computes its minimum without it. If the handler does return, the
+// consequence is exhibited: gc_worker advances past the pending value, is told the new minimum, then the write lands.
+func (w *world) svcAbandon() {
+	w.reset()
+	inf := int64(math.MaxInt64)
+	call := func(ctx context.Context, id string, ttl int64, sp uint64) (*pdpb.UpdateServiceGCSafePointResponse, error) {
+		return w.x.S.UpdateServiceGCSafePoint(ctx, &pdpb.UpdateServiceGCSafePointRequest{Header: w.x.Header(), ServiceId: []byte(id), TTL: ttl, SafePoint: sp})
+	}
+	if _, err := call(w.ctx, "gc_worker", inf, 40); err != nil {
+		w.R.Count("svc-abandon:set-up-refused")
+		return
+	}
+	reached, release := w.hold.Arm(kvx15.MethodTxn, "/"+svcPrefix+"a1", false)
+	ctx, cancel := context.WithCancel(w.ctx)
+	defer cancel()
+	done := make(chan error, 1)
+	go func() {
+		_, err := call(ctx, "a1", 1000, 45)
+		done <- err
+	}()
+	select {
+	case <-reached:
+	case err := <-done:
+		w.hold.Disarm()
+		w.R.Count("svc-abandon:request-did-not-write")
+		w.R.Notes = append(w.R.Notes, fmt.Sprint("abandoned-request scenario skipped: the registration finished without writing: ", err))
+		return
+	case <-time.After(20 * time.Second):
+		w.hold.Disarm()
+		w.R.Notes = append(w.R.Notes, "abandoned-request scenario incomplete: the registration's etcd write was not seen by the interceptor")
+		<-done
+		return
+	}
+	cancel()
+	select {
+	case err := <-done:
+		// the handler has returned; its write has not reached etcd yet
+		w.R.Count("svc-abandon:HANDLER-RETURNED-with-write-in-flight")
+		lockFree := !w.x.S.VerifC15ServiceLockHeld()
+		desc := fmt.Sprintf("UpdateServiceGCSafePoint returned (%v) after its context was cancelled while its own SaveServiceGCSafePoint was still on its way to etcd", err)
+		if lockFree {
+			desc += "; serviceSafePointLock was free again"
+			r, err2 := call(w.ctx, "gc_worker", inf, 60)
+			close(release)
+			var e *core.ServiceSafePoint
+			for i := 0; i < 100 && e == nil; i++ {
+				time.Sleep(20 * time.Millisecond)
+				e = find(w.all(), "a1")
+			}
+			if err2 == nil && e != nil && e.SafePoint < r.GetMinSafePoint() {
+				desc += fmt.Sprintf("; consequence: gc_worker was then told min=%d, after which the abandoned write recorded service a1 at %d", r.GetMinSafePoint(), e.SafePoint)
+			}
+		} else {
+			close(release)
+		}
+		w.R.Violate("C15:request-abandoned-with-its-write-in-flight", desc,
+			[]string{"svc gc_worker inf 40", "begin svc a1 1000 45 (its etcd write held)", "cancel the request's context", "svc gc_worker inf 60", "release the held write"})
+	case <-time.After(300 * time.Millisecond):
+		w.R.Count("svc-abandon:handler-waited-for-its-write")
+		close(release)
+		if err := <-done; err == nil {
+			if e := find(w.all(), "a1"); e == nil || e.SafePoint != 45 {
+				w.R.Violate("C15:acknowledged-registration-not-stored", "a registration answered after its caller's context was cancelled is not in storage", []string{"svc gc_worker inf 40", "svc a1 1000 45 (context cancelled during its write)"})
+			}
+		}
+	}
 }
 
 // heldRead: an interleaving at the granularity of single etcd requests. stored 100; U1 = UpdateGCSafePoint(200) is parked
@@ -1432,6 +1505,13 @@ func main() {
 	corpus := flag.String("corpus", "", "json file of fixed op lists run first")
 	replay := flag.String("replay", "", "json file with op lists (or a replay written by bin/check): run and print observations")
 	flag.Parse()
+	// watchdog: a run that is stuck says where (all goroutine stacks) instead of being killed silently by the runner
+	go func(d time.Duration) {
+		time.Sleep(d)
+		fmt.Fprintln(os.Stderr, "c15 driver: watchdog - no result after", d, "- goroutine stacks follow")
+		_ = pprof.Lookup("goroutine").WriteTo(os.Stderr, 1)
+		os.Exit(3)
+	}(map[bool]time.Duration{true: 270 * time.Second, false: 2900 * time.Second}[*tier == "quick"])
 
 	x, err := srv15.Start()
 	if err != nil {
@@ -1596,6 +1676,7 @@ func main() {
 	}
 	if *replay == "" {
 		w.svcRace()
+		w.svcAbandon()
 		w.malformedProbe()
 		if c := w.heldRead(); c != nil {
 			emit(*c, "directed:held-etcd-read")
